@@ -13,7 +13,7 @@ STUBS = ['shell (RPC) -> harness/opnode.Node: symbolic account counter, mempool 
 BOUNDS = {'quick': 'histories of up to 4 steps over the alphabet {prepare a new group of 1..2 transactions by fill() / by autofill() / by send() (autofill+sign+inject in one call), autofill() the prepared group again, extend the prepared group by one content and fill() it again, re-use of the same unfilled group object for several preparations, '
                    'sign+inject the prepared group (success / RpcError), the node bakes its mempool, another client of the account injects an operation, a foreign operation enters the mempool}; '
                    'the step sequence is chosen by the solver, the account counter is a symbolic integer; initial mempool: 0..2 own contents + optional foreign operation',
-          'thorough': 'up to 6 steps, groups of 1..3 contents (1..2 at 5 steps, 1 at 6 steps)'}
+          'thorough': 'up to 5 steps, groups of 1..3 contents (1..2 at 4 steps, 1 at 5 steps)'}
 OUTSIDE = ['an explicit counter= argument (the caller then owns the counter)', 'two groups prepared first and both injected afterwards (the property cannot be met by any client for both this and the '
            're-preparation history; the cached counter serves this one)', 'operations of the account entering the mempool from elsewhere between preparing and injecting a group']
 ASSUMPTIONS = ['the injected group is the most recently prepared one; expected counters: node counter + number of own contents pending in the mempool + 1, +2, ...',
@@ -249,7 +249,7 @@ def conc_history(Pp, w):
 def obligations(tier):
     q = tier == 'quick'
     obs = []
-    plans = [(1, 2, True), (2, 2, True), (3, 2, True), (4, 1, False)] if q else [(1, 3, True), (2, 3, True), (3, 3, True), (4, 3, True), (5, 2, True), (6, 1, False)]
+    plans = [(1, 2, True), (2, 2, True), (3, 2, True), (4, 1, False)] if q else [(1, 3, True), (2, 3, True), (3, 3, True), (4, 2, True), (5, 1, False)]
     for steps, nmax, foreign in plans:
         obs.append(Ob(f'history/steps={steps}', 'bvx', sym_history, conc_history, {'steps': steps, 'nmax': nmax, 'foreign': foreign}, timeout=900 if q else 20000, targets=TARGETS, stubs=STUBS,
                       bounds=f'every history of exactly {steps} steps over the 10-step alphabet; groups of 1..{nmax} transactions; symbolic account counter; initial mempool 0..2 own'
